@@ -51,4 +51,36 @@ Proof.
   apply sumn_ext. intros i _. ring.
 Qed.
 End Pullback.
-Print Assumptions wsum_pullback.
+
+(* ---- reindexing along a permutation given as a list ---------------------- *)
+From Coq Require Import Permutation.
+Definition sum_list (l : list Qc) : Qc := fold_right Qcplus 0 l.
+
+Lemma sum_list_perm l l' : Permutation l l' -> sum_list l = sum_list l'.
+Proof.
+  unfold sum_list. induction 1 as [|x l l' _ IH|x y l|l l' l'' _ IH1 _ IH2]; cbn [fold_right].
+  - reflexivity.
+  - now rewrite IH.
+  - ring.
+  - now rewrite IH1.
+Qed.
+
+Lemma sumn_sum_list n f : sumn n f = sum_list (map f (seq 0 n)).
+Proof. reflexivity. Qed.
+
+Lemma map_nth_seq {A} (p : list A) d : map (fun i => nth i p d) (seq 0 (length p)) = p.
+Proof.
+  induction p as [|a p IH]; cbn [length seq map]; [reflexivity|].
+  cbn [nth]. f_equal. rewrite <- seq_shift, map_map. cbn [nth]. exact IH.
+Qed.
+
+Lemma sumn_perm n (p : list nat) (g : nat -> Qc) :
+  Permutation p (seq 0 n) ->
+  sumn n (fun i => g (nth i p 0%nat)) = sumn n g.
+Proof.
+  intros P. assert (L : length p = n) by (rewrite (Permutation_length P); apply seq_length).
+  rewrite !sumn_sum_list.
+  replace (map (fun i => g (nth i p 0%nat)) (seq 0 n)) with (map g p).
+  - apply sum_list_perm. now apply Permutation_map.
+  - rewrite <- (map_nth_seq p 0%nat) at 1. rewrite map_map, L. reflexivity.
+Qed.
